@@ -209,14 +209,28 @@ def collapsing_ast(rng, eco):
     return [[op, v[0], v[1], v[2], []] for op, v in cmps]
 
 
+def plain_ast(rng, eco):
+    """requirements in the region of the operator theorems: >=, <, ^, ~, = (npm: also no operator)
+    on full release versions with small numbers; npm: 1-3 comparators per and-list, 1-3
+    alternatives; Cargo: one comparator.  They are printed without textual variation."""
+    def triple():
+        return [rng.choice([0, 1, 1, 2, 3]), rng.choice([0, 0, 1, 2, 9]), rng.choice([0, 0, 1, 3])]
+    ops = [1, 3, 3, 4, 4, 6, 7] + ([0] if eco == "npm" else [])
+    if eco == "npm":
+        return [[1, [[rng.choice(ops), triple() + [[]]] for _ in range(rng.choice([1, 2, 2, 3]))]] for _ in range(rng.choice([1, 1, 2, 3]))]
+    return [[rng.choice(ops)] + triple() + [[]]]
+
+
 def gen_cases(ctx):
     rng = ctx.rng
     per = ctx.scale(1100, 55000)
     cases = []
     for eco in ranges.ECOS:
         for _ in range(per):
-            ast = collapsing_ast(rng, eco) if (eco in ("npm", "cargo") and rng.random() < 0.06) else ranges.gen_ast(rng, eco)
-            text = ranges.print_ast(rng, eco, ast)
+            plain = eco in ("npm", "cargo") and rng.random() < 0.1
+            ast = plain_ast(rng, eco) if plain else \
+                collapsing_ast(rng, eco) if (eco in ("npm", "cargo") and rng.random() < 0.06) else ranges.gen_ast(rng, eco)
+            text = ranges.print_ast(rng, eco, ast, plain=plain)
             pv = ranges.probes(rng, eco, ast, 4)
             if eco in ("npm", "cargo"):
                 ast = canon_idents(ast)
@@ -373,6 +387,71 @@ def confirm_with_tools(ctx, cases, hits, spec):
     if examples:
         ctx.extra["spec_validation_disagreements"] = examples
     return verdict
+
+
+# ----------------------------------------------------------------------------- the region of the theorems
+
+THM_CMP = re.compile(rb"^(>=|<|\^|~|=)?(0|[1-9]\d*)\.(0|[1-9]\d*)\.(0|[1-9]\d*)$")
+THM_CAND = re.compile(rb"^(0|[1-9]\d*)\.(0|[1-9]\d*)\.(0|[1-9]\d*)$")
+FIN = (1 << 63) - 1
+
+
+def thm_comparator(eco, t):
+    """operator + full release version as in C03_op_*_sound / C03_cargo_*_sound, side conditions included"""
+    m = THM_CMP.match(t)
+    if not m:
+        return False
+    op = m.group(1) or b""
+    nums = [int(x) for x in m.groups()[1:]]
+    if any(n >= FIN for n in nums):
+        return False
+    if op == b"<" and nums == [0, 0, 0]:
+        return False
+    if eco == "npm" and op == b"^" and nums[0] == 0:
+        return False
+    return True
+
+
+def thm_shape(eco, text):
+    """the requirement is spelled with the comparators of the operator theorems only, single
+    spaces / || between them (npm), one comparator (Cargo: no and-theorem for Cargo)"""
+    if eco == "npm":
+        alts = [a.split(b" ") for a in text.split(b"||")]
+        return alts if all(a and all(thm_comparator(eco, t) for t in a) for a in alts) else None
+    if eco == "cargo":
+        return [[text]] if thm_comparator(eco, text) else None
+    return None
+
+
+def theorem_domain(ctx, tables, cases, impl_lines, model_lines):
+    """which cases lie inside the region of the C03 theorems (operators on full release versions,
+    and-lists under the side conditions of C03_and_partial, || under C03_or_partial); counted per
+    ecosystem.  Returns the set of case indices inside."""
+    idx, dcases = [], []
+    for i, c in enumerate(cases):
+        if c["eco"] not in ("npm", "cargo"):
+            continue
+        ctx.count("region:%s:requirements" % c["eco"])
+        alts = thm_shape(c["eco"], c["text"])
+        if alts is None or not impl_lines[i].startswith('("ok"'):
+            continue
+        keys = set(c["keys"])
+        for a in alts:
+            for t in a:
+                keys |= set((0, x) for x in ctable.candidates(t))
+        idx.append(i)
+        dcases.append({"sys": c["sys"], "head": [str(c["sys"]), sx(alts)], "keys": keys})
+    inside = set()
+    if dcases:
+        for i, line in zip(idx, ctable.run_model(ctx, tables, "cdiag", dcases)):
+            eco = cases[i]["eco"]
+            ctx.count("region:%s:comparators of the operator theorems" % eco)
+            if line.startswith('("ok"') and parse_sx(line)[2] == 1:
+                inside.add(i)
+                ctx.count("region:%s:inside the C03 theorems" % eco)
+                ctx.count("region:%s:release candidates judged inside" % eco,
+                          sum(1 for p in cases[i]["ptexts"] if THM_CAND.match(p) and all(int(x) < FIN for x in p.split(b"."))))
+    return inside
 
 
 # ----------------------------------------------------------------------------- classification
@@ -700,6 +779,7 @@ def run(ctx):
     spec = spec_answers(ctx, cases)
     hits = oracle(ctx, cases, impl_lines, spec)
     verdict = confirm_with_tools(ctx, cases, hits, spec)
+    inside = theorem_domain(ctx, tables, cases, impl_lines, model_lines)
     for h, known, cls in classify(ctx, tables, cases, impl_lines, model_lines, hits, spec):
         c = cases[h.idx]
         if h.idx in verdict and not h.entry:
@@ -708,6 +788,11 @@ def run(ctx):
                 ctx.count("hit-not-confirmed-by-the-tool")
                 continue
         inp = {"ecosystem": c["eco"], "requirement": c["text"], "version": c["ptexts"][h.probe_i]}
+        if h.idx in inside and not h.entry and THM_CAND.match(c["ptexts"][h.probe_i]) and impl_lines[h.idx] == model_lines[h.idx]:
+            # operators, and-lists and || of this requirement are covered by the theorems for this
+            # release candidate: model and proof (or the unproved step from text to spans) disagree
+            ctx.divergence("theorem-region", inp, "oracle hit inside the region of the C03 theorems: " + h.what, "no hit")
+            continue
         if c["eco"] == "mavenq" and not h.entry and (DOT_QUAL.search(c["text"]) or DOT_QUAL.search(c["ptexts"][h.probe_i])):
             # a qualifier introduced by '.' (1.0.0.Final): outside D_mvn, where deps.dev follows the
             # Maven 3.6 ordering and the installed tool the 3.8 one (DESIGN 6.4, property C02)
